@@ -244,7 +244,7 @@ func trimStack(s string) string {
 	lines := strings.Split(s, "\n")
 	var out []string
 	for _, l := range lines {
-		if strings.Contains(l, "go-redis/") && !strings.Contains(l, "/vrt/") && !strings.HasPrefix(l, "\t") {
+		if strings.Contains(l, "go-redis/") && !strings.Contains(l, "/vrt/") && !strings.Contains(l, "go-redis/vrt.") && !strings.HasPrefix(l, "\t") {
 			l = strings.TrimSpace(l)
 			if i := strings.Index(l, "("); i > 0 {
 				l = l[:i]
